@@ -13,6 +13,8 @@ import tempfile
 import time
 
 ROOT = "/verif"
+# VT_REPO (seed evaluation only): analyse a scratch worktree instead of /repo
+PYPATH = ROOT + (os.pathsep + os.environ["VT_REPO"] if os.environ.get("VT_REPO") else "")
 NCPU = int(os.environ.get("VT_JOBS", "0") or 0) or min(16, os.cpu_count() or 4)
 
 
@@ -55,7 +57,7 @@ def run_jobs(jobs, workdir):
             out = os.path.join(workdir, "%s.%d.json" % (j["name"].replace("/", "_"), j["shard"]))
             env = dict(os.environ)
             env.update({"VT_SHARD": str(j["shard"]), "VT_NSHARDS": str(j["nshards"]), "VT_TIER": j["tier"],
-                        "PYTHONPATH": ROOT, "PYTHONDONTWRITEBYTECODE": "1", "PYTHONHASHSEED": "0"})
+                        "PYTHONPATH": PYPATH, "PYTHONDONTWRITEBYTECODE": "1", "PYTHONHASHSEED": "0"})
             env.update({k: str(v) for k, v in (j.get("env") or {}).items()})
             log = open(out + ".log", "w")
             p = subprocess.Popen([sys.executable, "-m", "vt.worker", j["module"], j["func"], j["kind"],
@@ -202,7 +204,7 @@ def main():
                         json.dump(rp, fh, indent=1, default=str)
                     pr = subprocess.run([sys.executable, "-m", "vt.run", "--replay", path], cwd=ROOT,
                                         capture_output=True, text=True,
-                                        env=dict(os.environ, PYTHONPATH=ROOT, PYTHONDONTWRITEBYTECODE="1", PYTHONHASHSEED="0"))
+                                        env=dict(os.environ, PYTHONPATH=PYPATH, PYTHONDONTWRITEBYTECODE="1", PYTHONHASHSEED="0"))
                     if pr.returncode == 1:
                         reproduced += 1
                         fp = f.get("fingerprint")
